@@ -193,6 +193,24 @@ struct Ctx {
 
 inline Ctx& ctx() { static Ctx c; return c; }
 
+// Run a harness body; an exception escaping it is recorded (stable key: its type and message) instead of
+// terminating the process, so that it is matched against known findings like any other violation.
+template<class F>
+inline int guarded_main(int argc, char** argv, F body)
+{
+   auto& C = ctx();
+   C.parse(argc, argv);
+   try { body(C); }
+   catch (const std::exception& e) {
+      std::string what = e.what();
+      for (auto& c : what) if (c >= '0' && c <= '9') c = '#';
+      C.viol(std::string("unexpected-exception:") + typeid(e).name() + ":" + what.substr(0, 60), std::string("an exception escaped the harness body: ") + e.what());
+   }
+   catch (...) { C.viol("unexpected-exception:unknown", "a non-standard exception escaped the harness body"); }
+   C.finish();
+   return 0;
+}
+
 inline std::string hexaddr(const void* p) { char b[32]; std::snprintf(b, sizeof b, "%p", p); return b; }
 
 } // namespace vh
